@@ -668,7 +668,45 @@ REQUESTS = [
     ('posix_rename', b'posix-rename@openssh.com', '_process_posix_rename'),
     ('statvfs', b'statvfs@openssh.com', '_process_statvfs'),
     ('fstatvfs', b'fstatvfs@openssh.com', '_process_fstatvfs'),
+    ('open', 'FXP_OPEN', '_process_open'),
+    ('open56', 'FXP_OPEN', '_process_open'),
+    ('stat', 'FXP_STAT', '_process_stat'),
+    ('stat', 'FXP_LSTAT', '_process_lstat'),
+    ('lstat', 'FXP_LSTAT', '_process_lstat'),
+    ('setstat', 'FXP_SETSTAT', '_process_setstat'),
+    ('setstat', b'lsetstat@openssh.com', '_process_lsetstat'),
+    ('fsetstat', 'FXP_FSETSTAT', '_process_fsetstat'),
+    ('rename', 'FXP_RENAME', '_process_rename'),
+    ('rename', b'posix-rename@openssh.com', '_process_posix_rename'),
+    ('posix_rename', 'FXP_RENAME', '_process_rename'),
+    ('mkdir', 'FXP_MKDIR', '_process_mkdir'),
+    ('realpath', 'FXP_REALPATH', '_process_realpath'),
+    ('symlink', 'FXP_LINK', '_process_link'),
+    ('link', 'FXP_LINK', '_process_link'),
+    ('link', b'hardlink@openssh.com', '_process_openssh_link'),
+    ('lock', 'FXP_BLOCK', '_process_lock'),
+    ('unlock', 'FXP_UNBLOCK', '_process_unlock'),
+    ('copy_data', b'copy-data', '_process_copy_data'),
+    ('request_ranges', b'ranges@asyncssh.com', '_process_ranges'),
+    ('request_limits', b'limits@openssh.com', '_process_limits'),
 ]
+
+
+def _alternatives(word: str) -> List[str]:
+    """Expand optional `[x]` and choice `[a|b]` groups of a reader word
+    into the list of concrete words it accepts (groups are not nested)."""
+    import re as _re
+    outs = ['']
+    pos = 0
+    for m in _re.finditer(r'\[([^\[\]]*)\]', word):
+        lit = word[pos:m.start()]
+        opts = m.group(1).split('|')
+        if len(opts) == 1:
+            opts = opts + ['']
+        outs = [_canon(o + ' ' + lit + ' ' + x) for o in outs for x in opts]
+        pos = m.end()
+    outs = [_canon(o + ' ' + word[pos:]) for o in outs]
+    return sorted(set(outs))
 
 
 def requests(k: Kit) -> None:
@@ -697,17 +735,19 @@ def requests(k: Kit) -> None:
             rep.error('C14.R4', f'request {meth}', 'request site not found')
             continue
         n += 1
+        alts = _alternatives(rw_body)
         for w in words:
             if '?' in w:
                 pre = _canon(w.split('?')[0])
-                okq = (rw_body + ' ').startswith(pre + ' ') or rw_body == pre
+                okq = any((a + ' ').startswith(pre + ' ') or a == pre
+                          for a in alts)
             else:
-                okq = w == rw_body
-            rep.check(okq, 'C14.R4', f'request {meth}',
+                okq = w in alts
+            rep.check(okq, 'C14.R4', f'request {meth} → {handler}',
                       f'client writes `{w or "(empty)"}`, server reads the same',
                       f'{meth}: client writes `{w}` but the server reads '
                       f'`{rw_body}`', cf.loc(cf.node))
-    rep.floor('C14.R4', 'request bodies compared', n, 10)
+    rep.floor('C14.R4', 'request bodies compared', n, 30)
 
 
 def r5(k: Kit) -> None:
